@@ -356,3 +356,59 @@ pub fn fan(pool: &Pool, width: usize) -> ANode {
         .collect();
     ANode::Elem { name: pool.names[0], ns: vec![], attrs: vec![(pool.attr_names[0], "v".into())], kids }
 }
+
+/// Adds declarations so that (with probability `percent` per missing binding) every namespaced element / attribute
+/// name has a usable prefix in scope: the XML-representable domain of the serialisation properties.
+pub fn declare_missing(r: &mut Rng, a: &mut ANode, reg: &Reg, pool: &Pool, percent: u64) {
+    fn walk(r: &mut Rng, a: &mut ANode, reg: &Reg, pool: &Pool, percent: u64, scope: &Vec<(usize, usize)>) {
+        match a {
+            ANode::Doc(kids) => { for k in kids.iter_mut() { walk(r, k, reg, pool, percent, scope); } }
+            ANode::Elem { name, ns, attrs, kids } => {
+                let mut sc: Vec<(usize, usize)> = scope.iter().copied().filter(|(p, _)| !ns.iter().any(|(q, _)| q == p)).collect();
+                sc.extend(ns.iter().copied());
+                let ens = reg.names[*name].1;
+                let mut need: Vec<(usize, bool)> = vec![]; // (namespace, needs non-empty prefix)
+                if ens != 0 && !sc.iter().any(|(_, n)| *n == ens) { need.push((ens, false)); }
+                for (an, _) in attrs.iter() {
+                    let ans = reg.names[*an].1;
+                    if ans != 0 && ans != 1 && !sc.iter().any(|(p, n)| *n == ans && *p != 0) { need.push((ans, true)); }
+                }
+                for (n, non_empty) in need {
+                    if !r.chance(percent, 100) { continue; }
+                    // a prefix this element does not declare yet
+                    let cands: Vec<usize> = pool.prefixes.iter().copied().filter(|p| !ns.iter().any(|(q, _)| q == p) && !(non_empty && *p == 0)).collect();
+                    if cands.is_empty() { continue; }
+                    let p = *r.pick(&cands);
+                    // binding the empty prefix changes the meaning of an unprefixed element name: only when the element is in n
+                    if p == 0 && ens != n { continue; }
+                    ns.push((p, n));
+                    sc.retain(|(q, _)| *q != p);
+                    sc.push((p, n));
+                }
+                for k in kids.iter_mut() { walk(r, k, reg, pool, percent, &sc); }
+            }
+            _ => {}
+        }
+    }
+    walk(r, a, reg, pool, percent, &vec![(1, 1)]);
+}
+
+/// makes comments / PIs / text XML-representable: no "--", no trailing "-", PI data without "?>" and not starting with
+/// white space, no empty text, only XML characters
+pub fn make_representable(a: &mut ANode) {
+    match a {
+        ANode::Doc(kids) => { for k in kids.iter_mut() { make_representable(k); } }
+        ANode::Elem { kids, attrs, .. } => {
+            for (_, v) in attrs.iter_mut() { *v = v.chars().filter(|c| xml_char(*c)).collect(); }
+            for k in kids.iter_mut() { make_representable(k); }
+        }
+        ANode::Text(s) => { *s = s.chars().filter(|c| xml_char(*c)).collect(); if s.is_empty() { *s = "t".into(); } }
+        ANode::Comment(s) => { *s = s.replace("--", "- -").chars().filter(|c| xml_char(*c)).collect(); if s.ends_with('-') { s.push(' '); } }
+        ANode::Pi(_, d) => { if let Some(x) = d { let t: String = x.replace("?>", "? >").trim_start().chars().filter(|c| xml_char(*c)).collect(); *d = if t.is_empty() { None } else { Some(t) }; } }
+        _ => {}
+    }
+}
+
+pub fn xml_char(c: char) -> bool {
+    matches!(c, '\u{9}' | '\u{A}' | '\u{D}' | '\u{20}'..='\u{D7FF}' | '\u{E000}'..='\u{FFFD}' | '\u{10000}'..='\u{10FFFF}')
+}
